@@ -93,6 +93,7 @@ class Sec:
         self._components()
         self._checks = None
         self._ctrl_bool_nodes = set()
+        self._ctrl_value_nodes = set()
         self._loops = {}
         self._cdeps = {}
 
@@ -279,6 +280,11 @@ class Sec:
                                 c.ing.add("CLMUL")
                             if tail in ("is_none", "is_some"):
                                 c.ing.add("PRESENCE")
+                # a comparison whose result was stored in a flag before it is branched on
+                for xb, blk_ in enumerate(b.blocks):
+                    for s_ in blk_["s"]:
+                        if s_["k"] == "assign" and not s_["p"]["pr"] and s_["p"]["l"] in locs and s_["r"]["k"] == "bin" and s_["r"]["op"] in ("Ne", "Eq") and xb != bi:
+                            c.ing.add("CMP")
                 for s in blk["s"]:
                     if s["k"] == "assign" and s["p"]["l"] == t["o"]["p"]["l"]:
                         r = s["r"]
@@ -328,6 +334,14 @@ class Sec:
                 for n in bs:
                     if n in all_comp and self.node_ty(n) in ("bool", "&bool"):
                         out.add(n)
+                # a short-circuit condition stored in a flag (`let ok = open(c0, d) || open(c1, d); match (ok && .., ..)`):
+                # the message values that decide the steering flag take part in the check
+                if t["o"]["p"].get("ty") == "bool" and not t["o"]["p"]["pr"]:
+                    full = fg.backward(fg.operand_nodes(bk, t["o"]), node_ok=lambda n: n[0] == bk, local=True)
+                    for n in full:
+                        if n in all_comp:
+                            out.add(n)
+                            self._ctrl_value_nodes.add(n)
                 # a pattern on the bool inside a received tuple (`Some((true, label)) if ..`): the switch reads the
                 # projected place directly
                 if t["o"]["p"].get("ty") == "bool" and t["o"]["p"]["pr"]:
